@@ -4,6 +4,7 @@ import (
 	"fmt"
 	"go/token"
 	"go/types"
+	"regexp"
 	"strings"
 
 	"golang.org/x/tools/go/ssa"
@@ -483,6 +484,7 @@ func checkC08(c *Check) {
 				continue
 			}
 			c.Req(du.pre == dc.pre, key+":same-pipeline", r4, p.Pos(chk.Pos()), fmt.Sprintf("pre-delegation calls differ: UDP does [%s], CheckUDP does [%s]", du.pre, dc.pre))
+			c.Req(du.dargs == dc.dargs, key+":same-request-passed-on", r4, p.Pos(chk.Pos()), fmt.Sprintf("UDP hands the next stage %s but CheckUDP hands it %s: the check is evaluated on a different request (e.g. a copy that lost the resolved addresses) than the one that is dialled", du.dargs, dc.dargs))
 			c.Req(du.target == dc.target, key+":same-next", r4, p.Pos(chk.Pos()), fmt.Sprintf("UDP delegates to %s but CheckUDP to %s", du.target, dc.target))
 			c.Req(dc.returnsDelegate, key+":verdict-returned", r4, p.Pos(chk.Pos()), "CheckUDP does not return the next stage's verdict on every path")
 		} else {
@@ -518,7 +520,8 @@ func checkC08(c *Check) {
 				okAll = false
 				continue
 			}
-			pres = append(pres, d.pre+"|"+d.addrShape)
+			// parameter positions differ between UDP(addr) and WriteTo(b, addr): compare callees and constants only
+			pres = append(pres, paramTok.ReplaceAllString(d.pre, "·")+"|"+d.addrShape)
 		}
 		if okAll && len(pres) == 3 {
 			c.Req(pres[0] == pres[1] && pres[1] == pres[2], "C08.R4:adapter:same-parsing", r4, p.Pos(ad[1].Pos()), "the adapter parses the destination differently in UDP / CheckUDP / WriteTo: "+strings.Join(pres, " vs "))
@@ -539,6 +542,7 @@ func reachableAfter(a, b ssa.Instruction) bool {
 type delegInfo struct {
 	call            ssa.CallInstruction
 	pre             string // static calls dominating the delegation, with constant args
+	dargs           string // shape of the arguments handed to the next stage
 	target          string // access path / producing call of the delegate receiver
 	returnsDelegate bool
 	addrShape       string // how the *AddrEx argument is built
@@ -576,14 +580,19 @@ func delegation(fn *ssa.Function, method string, iface *types.Named) delegInfo {
 			if i > 0 {
 				s += ","
 			}
-			if k := constOf(a); k != nil && k.Value != nil {
-				s += k.Value.ExactString()
-			} else {
-				s += "·"
-			}
+			s += argShape(fn, a)
 		}
 		pre = append(pre, s+")")
 	})
+	// the delegation passes on the method's own request (same parameter), not a copy
+	dargs := "delegate("
+	for i, a := range d.call.Common().Args {
+		if i > 0 {
+			dargs += ","
+		}
+		dargs += argShape(fn, a)
+	}
+	d.dargs = dargs + ")"
 	d.pre = strings.Join(pre, ";")
 	recv := d.call.Common().Value
 	if call, ok := resolve(recv).(*ssa.Call); ok {
@@ -650,6 +659,23 @@ func delegation(fn *ssa.Function, method string, iface *types.Named) delegInfo {
 		}
 	}
 	return d
+}
+
+var paramTok = regexp.MustCompile(`\bp\d+\b`)
+
+// argShape: how an argument relates to the enclosing method: one of its own
+// parameters (p<i>), a constant, or something computed (·).
+func argShape(fn *ssa.Function, a ssa.Value) string {
+	r := resolve(a)
+	for i, prm := range fn.Params {
+		if r == ssa.Value(prm) {
+			return fmt.Sprintf("p%d", i)
+		}
+	}
+	if k := constOf(a); k != nil && k.Value != nil {
+		return k.Value.ExactString()
+	}
+	return "·"
 }
 
 // alwaysErrors: every return's last result is a non-nil error value.
